@@ -1,0 +1,63 @@
+//go:build verif
+// +build verif
+
+package vm
+
+// Verification hook for property C15 (add-only, compiled only with -tags verif):
+// dumps the facts of a live jump table so that the verification harness can regenerate its
+// formal opcode table from the table the interpreter really uses.
+
+import (
+	"reflect"
+	"runtime"
+)
+
+// VerifOpInfoC15 is one entry of a jump table, with function values replaced by their symbol names.
+type VerifOpInfoC15 struct {
+	Op          int
+	Name        string
+	Valid       bool
+	ConstantGas uint64
+	MinStack    int
+	MaxStack    int
+	Halts       bool
+	Jumps       bool
+	Writes      bool
+	Reverts     bool
+	Returns     bool
+	Execute     string // symbol name of the execute function ("" = nil)
+	DynamicGas  string // symbol name of the dynamic gas function ("" = nil)
+	MemorySize  string // symbol name of the memory size function ("" = nil)
+}
+
+func verifFuncNameC15(f interface{}) string {
+	v := reflect.ValueOf(f)
+	if !v.IsValid() || v.IsNil() {
+		return ""
+	}
+	fn := runtime.FuncForPC(v.Pointer())
+	if fn == nil {
+		return "?"
+	}
+	return fn.Name()
+}
+
+// VerifDumpJumpTableC15 returns all 256 entries of the jump table selected by evmVersion
+// (the same selector the interpreter configuration uses).
+func VerifDumpJumpTableC15(evmVersion string) []VerifOpInfoC15 {
+	jt := GetJumpTable(evmVersion)
+	out := make([]VerifOpInfoC15, 0, 256)
+	for i := 0; i < 256; i++ {
+		o := jt[i]
+		out = append(out, VerifOpInfoC15{
+			Op: i, Name: OpCode(i).String(), Valid: o.valid, ConstantGas: o.constantGas,
+			MinStack: o.minStack, MaxStack: o.maxStack,
+			Halts: o.halts, Jumps: o.jumps, Writes: o.writes, Reverts: o.reverts, Returns: o.returns,
+			Execute: verifFuncNameC15(o.execute), DynamicGas: verifFuncNameC15(o.dynamicGas), MemorySize: verifFuncNameC15(o.memorySize),
+		})
+	}
+	return out
+}
+
+// VerifPoolVerificationC15 reports whether the aggressive integer-pool check is compiled in.
+func VerifPoolVerificationC15() bool { return verifyPool }
